@@ -38,8 +38,8 @@ theorem eventDefs_fixtureEvents (f : Path) (lines : List Chars) (mn : List Strin
   simp [eventDefs_append, eventDefs_argUsages, eventDefs]
 
 theorem eventDefs_marks (f : Path) (decos : List Expr) :
-    eventDefs (decos.flatMap (fun d => (usefixturesNames d).map (strUsage f (· + 1) (· - 1))) ++
-      decos.flatMap (fun d => (parametrizeIndirect d).map (strUsage f (· + 1) (· - 1)))) = [] := by
+    eventDefs (decos.flatMap (fun d => (usefixturesNames d).map (strUsage f lines)) ++
+      decos.flatMap (fun d => (parametrizeIndirect d).map (strUsage f lines))) = [] := by
   simp [eventDefs_append, eventDefs_flatMap_strUsages]
 
 /-- the definitions a function statement contributes, in closed form -/
